@@ -25,6 +25,11 @@ pub struct Case {
     /// thorough tier) instead of in-process: stack depth and frame sizes are those a user gets
     #[serde(default)]
     pub cli: bool,
+    /// the text holds a character that can start no token, on a line of its own between
+    /// statements: whatever else is in it, assembling must end in a diagnostic (never in an image
+    /// of the part before it)
+    #[serde(default)]
+    pub must_reject: bool,
 }
 
 /// `lace check <file>` in a process of its own: any exit by signal, status 101 or with a panic
@@ -122,6 +127,11 @@ pub fn judge_case(c: &Case) -> Obs {
     }
     if let Some((sig, msg)) = judge_text(&c.text, c.stack) {
         obs.set_fail(sig, msg);
+    } else if c.must_reject && lacebox::assemble(&c.text, c.stack).is_ok() {
+        obs.set_fail(
+            "C05:junk-line-accepted",
+            format!("the source contains a character that can start no token, yet assembling returns an image (the text around it was dropped silently)\n--- source ---\n{}", clip(&c.text)),
+        );
     }
     obs
 }
@@ -337,7 +347,7 @@ fn mutated_cases() -> impl Strategy<Value = Case> {
     (raw_program(12), prop::collection::vec(mutation(), 1..5)).prop_map(|(raw, muts)| {
         let p = build_program(&raw);
         let (text, changed) = apply(tokens_of(&p), &muts);
-        Case { text, stack: raw.stack, mutated: changed, kind: "mutated-program".into(), cli: false }
+        Case { text, stack: raw.stack, mutated: changed, kind: "mutated-program".into(), cli: false, must_reject: false }
     })
 }
 
@@ -349,13 +359,13 @@ fn soup_cases() -> impl Strategy<Value = Case> {
             text.push_str(&pool()[idx(s, pool().len())]);
             text.push_str([" ", "\n", ",", "", " ", "\t", ":", " "][sep as usize]);
         }
-        Case { text, stack, mutated: true, kind: "token-soup".into(), cli: false }
+        Case { text, stack, mutated: true, kind: "token-soup".into(), cli: false, must_reject: false }
     })
 }
 
 /// Arbitrary unicode strings (byte-level flavour within valid UTF-8).
 fn string_cases() -> impl Strategy<Value = Case> {
-    (".{0,40}", any::<bool>()).prop_map(|(text, stack)| Case { text, stack, mutated: true, kind: "arbitrary-string".into(), cli: false })
+    (".{0,40}", any::<bool>()).prop_map(|(text, stack)| Case { text, stack, mutated: true, kind: "arbitrary-string".into(), cli: false, must_reject: false })
 }
 
 // ---------------------------------------------------------------------------------------------
@@ -383,7 +393,7 @@ fn char_positions(ctx: &Ctx, rep: &mut Report) {
                 let mut text = b.to_string();
                 text.insert(byte, ch);
                 for stack in [false, true] {
-                    let case = Case { text: text.clone(), stack, mutated: true, kind: "char-at-every-position".into(), cli: false };
+                    let case = Case { text: text.clone(), stack, mutated: true, kind: "char-at-every-position".into(), cli: false, must_reject: false };
                     judge_one(ctx, rep, &case, &mut |c| {
                         let mut o = judge_case(c);
                         o.label("char-positions");
@@ -407,7 +417,7 @@ fn numeric_positions(ctx: &Ctx, rep: &mut Report) {
             if !ctx.mine(n) {
                 continue;
             }
-            let case = Case { text: f.replace('@', t), stack: n % 2 == 0, mutated: true, kind: "numeric-edge-in-every-position".into(), cli: false };
+            let case = Case { text: f.replace('@', t), stack: n % 2 == 0, mutated: true, kind: "numeric-edge-in-every-position".into(), cli: false, must_reject: false };
             judge_one(ctx, rep, &case, &mut |c| {
                 let mut o = judge_case(c);
                 o.label("numeric-edges");
@@ -416,6 +426,50 @@ fn numeric_positions(ctx: &Ctx, rep: &mut Report) {
         }
     }
     rep.exhaustive.push(format!("{} numeric edge tokens (limits of every integer width in every spelling) in {} statement positions", numeric_edges().len(), frames.len()));
+}
+
+/// A character that can start no token (NUL, other control characters, symbols outside the
+/// grammar), alone on a line, at every line boundary of small valid programs: the result must be
+/// a diagnostic.
+fn junk_lines(ctx: &Ctx, rep: &mut Report) {
+    let programs = [
+        "start add r0 r0 #1\nloop brp loop\nhalt\n",
+        ".orig x4000\nlea r0 msg\nputs\nhalt\nmsg .stringz \"hi\"\nval .fill x1234\n",
+        "far .fill #1\nhalt\n.blkw #300\nld r0 far\n",
+    ];
+    let junk = ['\0', '\u{1}', '\u{7f}', '@', '$', '!', '%', '&', '*', '(', ')', '`', '~', '=', '?', '|', '^', '{', '\u{FEFF}', '\u{200B}', 'é', '😀'];
+    let mut n = 0u64;
+    for p in programs {
+        let lines: Vec<&str> = p.lines().collect();
+        for at in 0..=lines.len() {
+            for j in junk {
+                n += 1;
+                if !ctx.mine(n) {
+                    continue;
+                }
+                let mut text = String::new();
+                for (i, l) in lines.iter().enumerate() {
+                    if i == at {
+                        text.push(j);
+                        text.push('\n');
+                    }
+                    text.push_str(l);
+                    text.push('\n');
+                }
+                if at == lines.len() {
+                    text.push(j);
+                    text.push('\n');
+                }
+                let case = Case { text, stack: false, mutated: true, kind: "junk-line".into(), cli: false, must_reject: true };
+                judge_one(ctx, rep, &case, &mut |c| {
+                    let mut o = judge_case(c);
+                    o.label("junk-line-must-be-rejected");
+                    o
+                });
+            }
+        }
+    }
+    rep.exhaustive.push(format!("{} characters that can start no token, alone on a line at every line boundary of 3 valid programs: must end in a diagnostic", junk.len()));
 }
 
 fn fixed_list(ctx: &Ctx, rep: &mut Report) {
@@ -484,7 +538,7 @@ fn fixed_list(ctx: &Ctx, rep: &mut Report) {
         }
         if kind != "fixed-small" {
             // size extremes also through the real, unoptimised binary (stack depth, frame sizes)
-            let case = Case { text: text.clone(), stack: false, mutated: true, kind: kind.clone(), cli: true };
+            let case = Case { text: text.clone(), stack: false, mutated: true, kind: kind.clone(), cli: true, must_reject: false };
             judge_one(ctx, rep, &case, &mut |c| {
                 let mut o = judge_case(c);
                 o.label("size-extreme");
@@ -492,7 +546,7 @@ fn fixed_list(ctx: &Ctx, rep: &mut Report) {
             });
         }
         for stack in [false, true] {
-            let case = Case { text: text.clone(), stack, mutated: true, kind: kind.clone(), cli: false };
+            let case = Case { text: text.clone(), stack, mutated: true, kind: kind.clone(), cli: false, must_reject: false };
             judge_one(ctx, rep, &case, &mut |c| {
                 let mut o = judge_case(c);
                 o.label(if c.kind == "fixed-small" { "fixed-small" } else { "size-extreme" });
@@ -510,7 +564,7 @@ impl Prop for C05 {
         "Texts: (a) valid generated programs with 1-4 token-level mutations (delete, duplicate, swap, replace/insert a token of any kind from a ~400-entry pool incl. directives, strings, edge literals, junk and numbers at the limits of every integer width 2^7..2^128 in every spelling), abutting, character insertion/deletion and truncation; \
          (b) token soup from the pool; (c) arbitrary unicode strings; (d) multi-byte / combining / NUL characters at every character position of 24 representative statements (enumerated); (e) every numeric edge token in every operand / label position of 19 statement frames (enumerated); (f) a fixed list of lone prefixes, directives in operand position and size extremes \
          (.blkw xFFFF + statements, label distances 0x7FFE..0xFFFD in both directions, 70,000 statements, 66,000 labels, 70,000-character strings/tokens, runs of 400,000 and 1,200,000 comment lines / blank lines / blanks / commas / colons / `.break` directives / labels). The size extremes are also judged through the real binary (`lace check`, unoptimised debug build; release too in thorough), where stack depth and frame sizes are the user's. thorough adds libFuzzer campaigns (fuzz/asm_total). \
-         Oracle: no panic in lex/parse/backpatch/emit/render under debug assertions + overflow checks (and release in thorough); every diagnostic label span denotes a substring of the source (in bounds, on character boundaries); the diagnostic is non-empty. \
+         (g) characters that can start no token (NUL, control characters, symbols outside the grammar, BOM, zero-width space, non-ASCII letters) alone on a line at every line boundary of three valid programs - these must end in a diagnostic, never in an image. Oracle: no panic in lex/parse/backpatch/emit/render under debug assertions + overflow checks (and release in thorough); every diagnostic label span denotes a substring of the source (in bounds, on character boundaries); the diagnostic is non-empty. \
          Non-trivial: at least one mutation changed the text and it contains a token. Distinct = hash(text, flag)."
     }
     fn assumptions(&self) -> Vec<String> {
@@ -526,6 +580,7 @@ impl Prop for C05 {
         fixed_list(ctx, rep);
         char_positions(ctx, rep);
         numeric_positions(ctx, rep);
+        junk_lines(ctx, rep);
         let n = ctx.share(ctx.tier.pick(60_000, 800_000));
         drive(ctx, rep, "mutated", mutated_cases(), n, &mut |c: &Case| {
             let mut o = judge_case(c);
